@@ -109,6 +109,8 @@ def r_cond(c, top=True):
     if t == 'cmp':
         s = '%s %s %s' % (r_operand(c[2]), c[1], r_operand(c[3]))
         return s if top else '(' + s + ')'
+    if t == 'raw':
+        return c[1]
     raise ValueError(c)
 
 
@@ -293,6 +295,12 @@ def families(tier='quick', seed=0):
     add('shake', 'mixed case merge', {'idents': {'A': M((K('f'), S('ia*'))), 'B': M((K('f'), S('i*b'))), 'C': M((K('f'), S('c')))},
                                       'cond': ('or', ('or', ('id', 'A'), ('id', 'B')), ('id', 'C'))})
     add('shake', 'str cast merge', {'idents': {'A': M((K('f', 'str'), S('a*'))), 'B': M((K('f'), S('*b')))}, 'cond': ('or', ('id', 'A'), ('id', 'B'))})
+    # J: conditions whose operands are not predicates (C03: must be rejected at load, or be harmless)
+    for txt in ('A and 1', 'A and int(f)', 'A or int(f)', 'A or 1.5', '1 and A', 'int(f) and A', 'not A and 2', 'A and (1)',
+                'A and (int(f))', 'all(A) and 1', 'A and B or 1', 'int(f) == 1 and 2', '(A or 2) and B', 'A and str(f)',
+                'A and flt(g)', 'not (A and 1)', 'of(A, 1) or 0', 'A and not(f)', 'int(f) == 1 or int(g)', 'A and -1',
+                'A or (B and 3)', 'not(f) and A', '1 or 2', 'int(f) or int(g)', 'A and 1 == int(f)'):
+        add('nonpredicate', txt, {'idents': {'A': A, 'B': B}, 'cond': ('raw', txt)})
     return out
 
 
